@@ -51,7 +51,7 @@ QInit(group, mode, filtered) ==
       lastPn |-> <<>>,         \* <<side, space>> -> largest packet number logged as sent
       sstate |-> <<>>,         \* <<side, sid, stream_side>> -> last state logged
       nev    |-> 0,
-      ok |-> TRUE, why |-> "" ]
+      ok |-> TRUE, why |-> "", at |-> 0 ]
 
 \* every event: vocabulary and mandatory fields, JSON round trip
 Common(st, e) ==
